@@ -132,6 +132,28 @@ def gen_3(ctx, rep):
         rep.ob('GEN-3', GEN, eq.qual, 'return True', ok1 and ok2 and ok3 and ok4,
                'two DFA states can compare equal without equal finality (%s), equal arc count (%s) and identical arc '
                'targets (%s, after the loop: %s)' % (ok1, ok2, ok3, ok4))
+    # any other way of returning a verdict (an expression instead of the constant True)
+    for r in [n for n in walk_own(eq.node) if isinstance(n, ast.Return) and n.value is not None
+              and not isinstance(n.value, ast.Constant) and norm(n.value) != 'NotImplemented']:
+        v = r.value
+        ok, why = False, 'the verdict %s is not a comparison the rule can follow' % norm(v)
+        if isinstance(v, ast.Call) and norm(v.func) == 'all' and v.args and isinstance(v.args[0], (ast.GeneratorExp, ast.ListComp)):
+            g = v.args[0]
+            gen = g.generators[0]
+            it = norm(gen.iter)
+            if it == 'self.arcs.items()' and isinstance(gen.target, ast.Tuple) and len(gen.target.elts) == 2:
+                label, nxt = norm(gen.target.elts[0]), norm(gen.target.elts[1])
+                e = g.elt
+                sides = {norm(e.left), norm(e.comparators[0])} if isinstance(e, ast.Compare) and len(e.ops) == 1 \
+                    and isinstance(e.ops[0], ast.Is) else set()
+                ok = sides in ({nxt, '%s.arcs.get(%s)' % (other, label)}, {nxt, '%s.arcs[%s]' % (other, label)})
+                why = 'arc targets are not compared label by label: %s' % norm(e)
+            else:
+                why = ('arc targets are paired by position (%s), not by label: two dicts with the same keys can list them '
+                       'in different orders' % it)
+            # finality and arc count must still be established before
+            ok = ok and any(final_test(n.ast) for n in cfg.nodes if n.kind == 'test')
+        rep.ob('GEN-3', GEN, eq.qual, 'return %s' % norm(v)[:100], ok, why)
     rep.minimum('GEN-3', 1)
     init = cls.methods.get('__init__')
     ok = any(isinstance(n, ast.Assign) and norm(n.targets[0]) == 'self.is_final' and isinstance(n.value, ast.Compare)
